@@ -33,10 +33,11 @@ type Program struct {
 	decls         map[string]*ast.FuncDecl
 	Blocks        int
 	Instrs        int
-	ConstBranches int // branches on a constant condition whose dead side was pruned
+	ConstBranches int      // branches on a constant condition whose dead side was pruned
 	Inlined       int      // call sites of helpers unknown to the reference tree that were expanded (inlinenew.go)
 	InlinedAway   []string // such helpers with no remaining use
 	Normalized    int      // functions whose merged-condition branches were threaded (xssa.NormalizeBranches)
+	NewKept       []string // functions unknown to the reference tree that remain (started with go, used as a value, exported)
 	Reordered     []string // functions whose parameter order was put back to the reference tree's
 	cgCache       *CG
 }
